@@ -5,7 +5,7 @@ META = {
     "title": "Interactions follow the register, cutoff, custom matrix and SLM schedule",
     "technique": "static analysis: provenance of the interaction matrix through get_sequences (source "
                  "preference, clone-before-edit effect analysis, mask pattern, SLM rows/columns), branch table of "
-                 "the time switch, affine form of the query time at each consumer",
+                 "the time switch, affine form of the query time at each consumer; event ordering of cutoff and SLM copy; half-open-interval test of the query time",
     "design_ref": "DESIGN.md §5 C23",
     "explanation": "INTERACT: the full matrix is the user's config.interaction_matrix when given, else the "
                    "trajectory's register matrix; it is cloned before M[abs(M) < config.interaction_cutoff] = 0; "
